@@ -58,7 +58,8 @@ def run(ctx, build):
                 os.remove(path)
             with h5py.File(path, 'w') as f:
                 if source == 'generator':
-                    main = gen.write_layout(f, lay)
+                    chunks = (min(lay.N, 4), min(lay.M, 5)) if li % 3 == 2 and lay.N * lay.M > 1 else None
+                    main = gen.write_layout(f, lay, chunks=chunks)
                     hist['raw_generator'] += 1
                 else:
                     s2f = source.endswith('True')
@@ -238,6 +239,33 @@ def run(ctx, build):
                     if len(out.samples) < 4 and pos_sliced and spec_sliced:
                         out.samples.append(dict(desc, new_shape=list(ids.shape)))
                     del new.parent.parent[res_grp_name]
+    # ---- designed, seed-independent (exact oracle only): wide sources, so that the rows kept by a slice amount to more than a megabyte
+    # and are not a whole number of megabytes (a writer that copies in batches must not lose the last, partial one)
+    hist['wide_sources'] = 0
+    for dt, ncol, nrow, keep in (('f8', 4096, 50, 45), ('f4', 4096, 90, 77), ('f8', 2100, 80, 80 - 3)):
+        lay = gen.Layout([nrow], [0], [ncol], [0], dtype=dt)
+        if os.path.exists(path):
+            os.remove(path)
+        with h5py.File(path, 'w') as f:
+            main = gen.write_layout(f, lay)
+            data = main[()]
+            rows = [r for r in range(nrow) if r % 10 != 3][:keep]
+            desc = {'layout': lay.describe(), 'slice_dict': '{%r: %d of %d positions}' % (lay.pos_labels[0], len(rows), nrow)}
+            hist['wide_sources'] += 1
+            try:
+                with common.quiet():
+                    u = usid.USIDataset(main)
+                    new = u.slice_to_dataset({lay.pos_labels[0]: rows})
+                got = f[new.name][()]
+                pv = f[f[new.name].attrs['Position_Values']][()]
+                if got.shape != (len(rows), ncol) or not np.array_equal(got, data[rows, :]):
+                    bad_rows = [i for i in range(min(len(rows), got.shape[0])) if not np.array_equal(got[i], data[rows[i]])]
+                    violate('valid_selection', 'element_not_equal_to_source_element_with_same_coordinates',
+                            'rows %s of the new dataset differ from the selected source rows; %s' % (bad_rows[:6], desc), desc)
+                elif [float(x) for x in pv[:, 0]] != [float(np.float32(lay.pos_unit(0)[r])) for r in rows]:
+                    violate('valid_selection', 'new_position_values_wrong', str(desc), desc)
+            except Exception as e:
+                violate('valid_selection', 'valid_request_raises', '%r %s' % (e, desc), desc)
     bad, err = common.coq_eval_cases(ctx, HEADER, cases, 'check11', case_type='case11', per_file=60)
     out.corr_error = err
     out.disagreements = [meta[i] for i in bad]
